@@ -264,11 +264,16 @@ def t3_attr(sx, checksum_ok, nblocks, with_sys):
     else:
         m[14], m[15] = sx.byte("cs_hi"), sx.byte("cs_lo")
     w.with_sys = with_sys
-    # PMm bytes that the reader turns into command time-outs are symbolic too
-    w.sim.pmm[5] = sx.byte("pmm5")
-    w.sim.pmm[6] = sx.byte("pmm6")
     w.target = lambda: tags.tt3_target(w.sim, with_sys)
     return exercise(sx, w, "tt3:attribute-block", max_cmds=3 * 4200)
+
+
+def t3_pmm(sx):
+    """the PMm bytes that the reader turns into command time-outs, symbolic"""
+    w = worlds.T3World(sx, 4, 3, 5, 20, fill=0x40)
+    w.sim.pmm[5] = sx.byte("pmm5")
+    w.sim.pmm[6] = sx.byte("pmm6")
+    return exercise(sx, w, "tt3:pmm-timing", max_cmds=100)
 
 
 def t3_gone(sx, n):
@@ -488,6 +493,7 @@ def partitions(tier):
             for ws in (True, False):
                 add("t3:attr:%s:%d:%s" % (cs, nb, ws), "t3_attr", checksum_ok=cs, nblocks=nb, with_sys=ws)
     add("t3:gone", "t3_gone", n=40)
+    add("t3:pmm", "t3_pmm")
     for n in (0, 1, 9, 10, 11, 12, 13):
         add("t3:rsp:%d" % n, "t3_rsp", n=n)
     for n in range(1, 8 if tier == "quick" else 10):
